@@ -2,7 +2,7 @@
 set of coq/Model/LazyInit.v (as (code, arg) pairs) together with 'every shared access is inside the lock' flags."""
 import ast
 
-from vh.translate import TranslateError, _parse, _class, _func
+from vh.translate import TranslateError, _parse, _class, _func, coq_strings
 
 IFSET, LOAD, COMPUTE, STORE, CLEAR, RETURN = 0, 1, 2, 3, 4, 5
 
@@ -111,10 +111,10 @@ def item_sites(repo, out):
                      '_channel_freqs', [], _is_none_test('_channel_freqs'))
     _emit(out, 'site_spw', i, l)
 
-    def getter_test(t):   # `isinstance(sensor_data, SensorGetter) and extract`: the entry is still raw
-        return 'isinstance(sensor_data, SensorGetter)' in ast.unparse(t)
-    i, l = lazy_site(repo, 'katdal/sensordata.py', 'SensorCache', 'get', '_lock', '_raw', ['virtual', 'store'],
-                     getter_test, returns_local=True)
+    def getter_test(t):   # exactly `isinstance(sensor_data, SensorGetter) and extract`: the entry is still raw
+        return ast.unparse(t) == 'isinstance(sensor_data, SensorGetter) and extract'
+    i, l = lazy_site(repo, 'katdal/sensordata.py', 'SensorCache', 'get', '_lock', '_raw',
+                     ['virtual', 'store', 'props', 'timestamps'], getter_test, returns_local=True)
     _emit(out, 'site_sensor_get', i, l)
     # plain guarded accessors: every statement touching the shared field must be inside `with self._lock:`
     for rel, cls, meth, lock, field, nm in [
@@ -134,4 +134,239 @@ def item_sites(repo, out):
     out.append('Definition sensor_lock_reentrant : bool := %s.' % ('true' if kinds == ['threading.RLock()'] else 'false'))
 
 
-ITEMS = [item_sites]
+# ------------------------------------------------------------------------------------------- lock discipline
+
+def _unlocked_mention(node, lock, fields):
+    """Does `node` mention self.<field> anywhere that is NOT inside the body of a `with self.<lock>:`?"""
+    if isinstance(node, ast.With) and any(_is_self_attr(i.context_expr, [lock]) for i in node.items):
+        return any(_unlocked_mention(i.context_expr, lock, fields) for i in node.items)
+    if isinstance(node, ast.Attribute) and node.attr in fields:
+        # the guarded fields are private: reaching them through any object (self, another instance in a classmethod,
+        # getattr-free aliasing) outside the lock is an unlocked access
+        return True
+    if isinstance(node, ast.Constant) and node.value in fields:
+        return True     # getattr(self, '_dataset') and the like
+    return any(_unlocked_mention(c, lock, fields) for c in ast.iter_child_nodes(node))
+
+
+def _lock_discipline(repo, rel, cls, lock, fields):
+    """(kind of lock, 'assigned exactly once, in __init__', names of the methods that touch a shared field
+    outside the lock - in source order)."""
+    c = _class(_parse(repo, rel), cls, rel)
+    assigns = []
+    for f in c.body:
+        if not isinstance(f, (ast.FunctionDef, ast.AsyncFunctionDef)):
+            continue
+        for n in ast.walk(f):
+            targets = []
+            if isinstance(n, ast.Assign):
+                targets = n.targets
+            elif isinstance(n, (ast.AugAssign, ast.AnnAssign)):
+                targets = [n.target]
+            elif isinstance(n, ast.Delete):
+                targets = n.targets
+            elif isinstance(n, (ast.With, ast.AsyncWith)):
+                targets = [i.optional_vars for i in n.items if i.optional_vars is not None]
+            elif isinstance(n, ast.NamedExpr):
+                targets = [n.target]
+            elif (isinstance(n, ast.Call) and isinstance(n.func, ast.Name) and n.func.id in ('setattr', 'delattr')
+                  and len(n.args) >= 2 and isinstance(n.args[1], ast.Constant) and n.args[1].value == lock):
+                assigns.append((f.name, None))
+            for t in targets:
+                for tt in ast.walk(t):
+                    if _is_self_attr(tt, [lock]) and not isinstance(tt, ast.Subscript):
+                        assigns.append((f.name, getattr(n, 'value', None)))
+    # class-level attribute of the same name would be shared by all instances: still a lock, but not what was modelled
+    for n in c.body:
+        if isinstance(n, ast.Assign) and any(isinstance(t, ast.Name) and t.id == lock for t in n.targets):
+            assigns.append(('<class>', n.value))
+    kind = 0
+    once = len(assigns) == 1 and assigns[0][0] == '__init__' and assigns[0][1] is not None
+    if once:
+        txt = ast.unparse(assigns[0][1])
+        kind = {'threading.Lock()': 1, 'threading.RLock()': 2}.get(txt, 0)
+    outside = [f.name for f in c.body if isinstance(f, (ast.FunctionDef, ast.AsyncFunctionDef))
+               and _unlocked_mention(f, lock, fields)]
+    return kind, once and kind != 0, outside
+
+
+def item_discipline(repo, out):
+    for nm, rel, cls, lock, fields in [
+            ('site_dask', 'katdal/lazy_indexer.py', 'DaskLazyIndexer', '_lock', ['_dataset', '_orig_dataset']),
+            ('site_spw', 'katdal/spectral_window.py', 'SpectralWindow', '_channel_freqs_lock', ['_channel_freqs']),
+            ('sensor', 'katdal/sensordata.py', 'SensorCache', '_lock', ['_raw']),
+            ('pool', 'katdal/chunkstore_s3.py', '_Pool', '_lock', ['_pool'])]:
+        kind, once, outside = _lock_discipline(repo, rel, cls, lock, fields)
+        out.append('Definition %s_lock_kind : Z := (%d)%%Z.   (* 1 = threading.Lock(), 2 = threading.RLock(), 0 = anything else *)' % (nm, kind))
+        out.append('Definition %s_lock_once : bool := %s.' % (nm, 'true' if once else 'false'))
+        out.append('Definition %s_unlocked_methods : list string := %s.' % (nm, coq_strings(outside)))
+
+
+# ------------------------------------------------------------------------------------------- the session pool
+
+FACTORY, POP_LAST, POP_FIRST, PEEK_LAST, PEEK_FIRST = 0, 1, 2, 3, 4
+APPEND, INSERT_FRONT = 0, 1
+
+
+def _is_pool(node):
+    return _is_self_attr(node, ['_pool']) and not isinstance(node, ast.Subscript)
+
+
+def _int_const(node):
+    if isinstance(node, ast.Constant) and isinstance(node.value, int) and not isinstance(node.value, bool):
+        return node.value
+    if isinstance(node, ast.UnaryOp) and isinstance(node.op, ast.USub) and isinstance(node.operand, ast.Constant):
+        return -node.operand.value
+    return None
+
+
+def _pool_action(expr, what):
+    if (isinstance(expr, ast.Call) and not expr.args and not expr.keywords and _is_self_attr(expr.func, ['_factory'])
+            and not isinstance(expr.func, ast.Subscript)):
+        return FACTORY
+    if (isinstance(expr, ast.Call) and isinstance(expr.func, ast.Attribute) and expr.func.attr == 'pop'
+            and _is_pool(expr.func.value) and not expr.keywords):
+        if not expr.args:
+            return POP_LAST
+        k = _int_const(expr.args[0]) if len(expr.args) == 1 else None
+        if k == -1:
+            return POP_LAST
+        if k == 0:
+            return POP_FIRST
+    if isinstance(expr, ast.Subscript) and _is_pool(expr.value):
+        k = _int_const(expr.slice)
+        if k == -1:
+            return PEEK_LAST
+        if k == 0:
+            return PEEK_FIRST
+    raise TranslateError('%s: unsupported way of obtaining an item: %s' % (what, ast.unparse(expr)))
+
+
+def _pool_test(t, what):
+    """'empty' when the test is true exactly for an empty pool, 'nonempty' when true exactly for a non-empty one."""
+    if isinstance(t, ast.UnaryOp) and isinstance(t.op, ast.Not):
+        return {'empty': 'nonempty', 'nonempty': 'empty'}[_pool_test(t.operand, what)]
+    if _is_pool(t):
+        return 'nonempty'
+    if (isinstance(t, ast.Call) and isinstance(t.func, ast.Name) and t.func.id == 'len' and len(t.args) == 1
+            and _is_pool(t.args[0])):
+        return 'nonempty'
+    if isinstance(t, ast.Compare) and len(t.ops) == 1:
+        left, op, right = t.left, t.ops[0], t.comparators[0]
+        is_len = (isinstance(left, ast.Call) and isinstance(left.func, ast.Name) and left.func.id == 'len'
+                  and len(left.args) == 1 and _is_pool(left.args[0]))
+        k = _int_const(right)
+        if is_len and k is not None:
+            table = {(ast.Eq, 0): 'empty', (ast.NotEq, 0): 'nonempty', (ast.Gt, 0): 'nonempty', (ast.GtE, 1): 'nonempty',
+                     (ast.Lt, 1): 'empty', (ast.LtE, 0): 'empty'}
+            if (type(op), k) in table:
+                return table[(type(op), k)]
+        if _is_pool(left) and isinstance(right, ast.List) and not right.elts and isinstance(op, (ast.Eq, ast.NotEq)):
+            return 'empty' if isinstance(op, ast.Eq) else 'nonempty'
+    raise TranslateError('%s: unsupported emptiness test: %s' % (what, ast.unparse(t)))
+
+
+def _strip_doc(body):
+    return [s for s in body if not (isinstance(s, ast.Expr) and isinstance(s.value, ast.Constant))]
+
+
+def item_pool(repo, out):
+    rel = 'katdal/chunkstore_s3.py'
+    c = _class(_parse(repo, rel), '_Pool', rel)
+    # __init__: the pool starts empty
+    init = _strip_doc(_func(c, '__init__', rel).body)
+    starts = [ast.unparse(s.value) for s in init if isinstance(s, ast.Assign) and _is_pool(s.targets[0])]
+    out.append('Definition pool_init_empty : bool := %s.' % ('true' if starts == ['[]'] else 'false'))
+    # get: (with lock:) if <test>: return A else: return B   |   if <test>: return A ; return B
+    g = _strip_doc(_func(c, 'get', rel).body)
+    if len(g) == 1 and _lock_with(g[0], '_lock'):
+        g = _strip_doc(g[0].body)
+    if not g or not isinstance(g[0], ast.If):
+        raise TranslateError('_Pool.get: expected an emptiness test')
+    test = _pool_test(g[0].test, '_Pool.get')
+    then = _strip_doc(g[0].body)
+    other = _strip_doc(g[0].orelse) if g[0].orelse else g[1:]
+    if g[0].orelse and len(g) != 1:
+        raise TranslateError('_Pool.get: statements after the if/else')
+    if len(then) != 1 or len(other) != 1 or not isinstance(then[0], ast.Return) or not isinstance(other[0], ast.Return) \
+            or then[0].value is None or other[0].value is None:
+        raise TranslateError('_Pool.get: each branch must be a single return')
+    a_then = _pool_action(then[0].value, '_Pool.get')
+    a_other = _pool_action(other[0].value, '_Pool.get')
+    empty, nonempty = (a_then, a_other) if test == 'empty' else (a_other, a_then)
+    out.append('Definition pool_get_empty_code : Z := (%d)%%Z.   (* 0 factory() 1 pop() 2 pop(0) 3 [-1] 4 [0] *)' % empty)
+    out.append('Definition pool_get_nonempty_code : Z := (%d)%%Z.' % nonempty)
+    # put: (with lock:) self._pool.append(item) | self._pool.insert(0, item)
+    pf = _func(c, 'put', rel)
+    argn = [a.arg for a in pf.args.args]
+    pb = _strip_doc(pf.body)
+    if len(pb) == 1 and _lock_with(pb[0], '_lock'):
+        pb = _strip_doc(pb[0].body)
+    code = None
+    if len(pb) == 1 and isinstance(pb[0], ast.Expr) and isinstance(pb[0].value, ast.Call):
+        call = pb[0].value
+        if isinstance(call.func, ast.Attribute) and _is_pool(call.func.value) and not call.keywords and len(argn) == 2:
+            names = [a.id if isinstance(a, ast.Name) else None for a in call.args]
+            if call.func.attr == 'append' and names == [argn[1]]:
+                code = APPEND
+            elif call.func.attr == 'insert' and len(call.args) == 2 and _int_const(call.args[0]) == 0 and names[1] == argn[1]:
+                code = INSERT_FRONT
+    if code is None:
+        raise TranslateError('_Pool.put: unsupported body')
+    out.append('Definition pool_put_code : Z := (%d)%%Z.   (* 0 append 1 insert(0, .) *)' % code)
+    # __call__: item = self.get(); yield item; self.put(item)
+    cb = _strip_doc(_func(c, '__call__', rel).body)
+    seq = []
+    var = None
+    for s in cb:
+        txt = ast.unparse(s)
+        if isinstance(s, ast.Assign) and txt.endswith('= self.get()') and isinstance(s.targets[0], ast.Name):
+            var = s.targets[0].id
+            seq.append(0)
+        elif isinstance(s, ast.Expr) and isinstance(s.value, ast.Yield) and var and txt == 'yield %s' % var:
+            seq.append(1)
+        elif var and txt == 'self.put(%s)' % var:
+            seq.append(2)
+        else:
+            raise TranslateError('_Pool.__call__: unsupported statement %s' % txt)
+    out.append('Definition pool_call_code : list Z := [%s].   (* 0 item = self.get() 1 yield item 2 self.put(item) *)'
+               % '; '.join('(%d)%%Z' % k for k in seq))
+    # S3ChunkStore: one pool per store, built in __init__ from the session factory; request() sends through the session it
+    # borrowed from the pool in a `with` that spans the whole retry loop
+    st = _class(_parse(repo, rel), 'S3ChunkStore', rel)
+    init = _func(st, '__init__', rel)
+    pools = [ast.unparse(n.value) for n in ast.walk(init) if isinstance(n, ast.Assign)
+             and _is_self_attr(n.targets[0], ['_session_pool'])]
+    req = _func(st, 'request', rel)
+    ok = pools == ['_Pool(session_factory)']
+    borrowed = None
+    users = 0
+    for n in ast.walk(req):
+        if isinstance(n, ast.With):
+            for i in n.items:
+                if ast.unparse(i.context_expr) == 'self._session_pool()' and isinstance(i.optional_vars, ast.Name):
+                    if borrowed is not None:
+                        ok = False
+                    borrowed = (i.optional_vars.id, n)
+    if borrowed is None:
+        ok = False
+    else:
+        name, w = borrowed
+        inside = {id(x) for x in ast.walk(w)}
+        for n in ast.walk(req):
+            if isinstance(n, ast.Call) and isinstance(n.func, ast.Name) and n.func.id == '_request':
+                users += 1
+                if not (n.args and isinstance(n.args[0], ast.Name) and n.args[0].id == name and id(n) in inside):
+                    ok = False
+            # the borrowed name must not be re-bound, and no other session may be conjured up
+            if isinstance(n, ast.Assign) and any(isinstance(t, ast.Name) and t.id == name for t in n.targets):
+                ok = False
+        if users < 1:
+            ok = False
+    if any(isinstance(n, ast.Attribute) and n.attr in ('_session', 'session') and isinstance(n.value, ast.Name)
+           and n.value.id == 'self' for n in ast.walk(st)):
+        ok = False
+    out.append('Definition s3_request_session_from_pool : bool := %s.' % ('true' if ok else 'false'))
+
+
+ITEMS = [item_sites, item_discipline, item_pool]
